@@ -10,7 +10,14 @@
 (* model-checked with and judges every recorded observable.                *)
 (*                                                                         *)
 (* Many traces are concatenated; a "new" event starts a trace and carries  *)
-(* the module descriptor.  A mismatch is printed once per trace            *)
+(* the module descriptor: which tokens are invalid, the probe table        *)
+(* (probe -> tokens whose rule refuses it; the driver owns one per module  *)
+(* and per scenario, NEAR-EQUAL VARIANTS included: an error-count breaker  *)
+(* with threshold 3 / 3.5 opens on the 3rd / 4th error) and `near'         *)
+(* (variant token -> the token it differs from in one field).  A probe     *)
+(* record carries either `by' (the token of the rule named by the block    *)
+(* error, "pass" if admitted) or `hit' (refused or not, where a refusal    *)
+(* names no rule).  A mismatch is printed once per trace                   *)
 (* ("MISMATCH <trace> <line> <json>") and the rest of that trace skipped.  *)
 (***************************************************************************)
 EXTENDS RuleStore, Json
@@ -37,7 +44,7 @@ TNew ==
     /\ IsEvent("new")
     /\ tr' = Ev.tr
     /\ d' = [perRes |-> Ev.perres, invalid |-> ToSet(Ev.invalid), rejects |-> Ev.rejects, ordered |-> Ev.ordered,
-             probes |-> Ev.probes, mod |-> Ev.mod]
+             near |-> Ev.near, probes |-> Ev.probes, mod |-> Ev.mod]
     /\ want' = [r \in ToSet(Ev.res) |-> << >>]
     /\ lastOf' = [s \in ToSet(Ev.res) \cup {All} |-> None]
     /\ failed' = FALSE
@@ -47,8 +54,12 @@ TNew ==
 W(w, r) == IF r \in DOMAIN w THEN w[r] ELSE << >>
 RepOK(e, w)    == Has(e, "rep") => \A r \in DOMAIN e.rep : SameRules(d, e.rep[r], W(w, r))
 AllOK(e, w)    == \A r \in DOMAIN e.all : SameRules(d, e.all[r], W(w, r))
-ProbesOK(e, w) == \A i \in DOMAIN e.probes :
-                     LET p == e.probes[i] IN p.by \in ProbeAnswers(d, W(w, p.res), ToSet(d.probes[p.p]))
+ProbeOK(p, w)  == IF Has(p, "hit") THEN p.hit = ProbeBlocked(W(w, p.res), ToSet(d.probes[p.p]))
+                  ELSE p.by \in ProbeAnswers(d, W(w, p.res), ToSet(d.probes[p.p]))
+ProbesOK(e, w) == \A i \in DOMAIN e.probes : ProbeOK(e.probes[i], w)
+\* probes answered by a rule that is not in force although a NEAR-EQUAL variant of it is (same resource): the
+\* controller of the earlier variant survived the reload (RuleStore!NoStaleVariant on the observed behaviour)
+StaleProbes(e, w) == SelectSeq(e.probes, LAMBDA p : Has(p, "by") /\ StaleVariants(d, << <<p.by, p.res>> >>, W(w, p.res)) # {})
 ObsOK(e, w)    == RepOK(e, w) /\ AllOK(e, w) /\ ProbesOK(e, w)
 
 \* a load / clear: scope All or a resource, list of elements (empty for a clear)
@@ -62,18 +73,20 @@ TOp ==
            \* an operation that returns an error may leave its scope as it was (RejectedLoad)
            rejected == e.err /\ ~ObsOK(e, applied) /\ ObsOK(e, want)
            w       == IF rejected THEN want ELSE applied
-           why     == SelectSeq(<<"panic", "unchanged", "reported", "getrules", "probe">>,
+           why     == SelectSeq(<<"panic", "unchanged", "reported", "getrules", "probe", "stale">>,
                          LAMBDA c : CASE c = "panic"     -> e.panic
                                       [] c = "unchanged" -> ~e.panic /\ idn /\ (e.changed \/ e.err)
                                       [] c = "reported"  -> ~e.panic /\ ~RepOK(e, w)
                                       [] c = "getrules"  -> ~e.panic /\ ~AllOK(e, w)
-                                      [] c = "probe"     -> ~e.panic /\ ~ProbesOK(e, w))
+                                      [] c = "probe"     -> ~e.panic /\ ~ProbesOK(e, w)
+                                      [] c = "stale"     -> ~e.panic /\ StaleProbes(e, w) # << >>)
        IN  /\ want' = w
            /\ lastOf' = IF e.err \/ e.panic THEN LastAfter(lastOf, sc, << >>) ELSE LastAfter(lastOf, sc, list)
            /\ Judge(why = << >>,
                     [why |-> why, mod |-> d.mod, op |-> e.op, want |-> w,
                      \* what exactly is wrong (used by the check to name the failing pattern)
-                     badp   |-> IF e.panic THEN << >> ELSE SelectSeq(e.probes, LAMBDA p : p.by \notin ProbeAnswers(d, W(w, p.res), ToSet(d.probes[p.p]))),
+                     badp   |-> IF e.panic THEN << >> ELSE SelectSeq(e.probes, LAMBDA p : ~ProbeOK(p, w)),
+                     stale  |-> IF e.panic THEN << >> ELSE StaleProbes(e, w),
                      badrep |-> IF e.panic \/ ~Has(e, "rep") THEN {} ELSE {r \in DOMAIN e.rep : ~SameRules(d, e.rep[r], W(w, r))},
                      badall |-> IF e.panic THEN {} ELSE {r \in DOMAIN e.all : ~SameRules(d, e.all[r], W(w, r))}])
     /\ UNCHANGED <<tr, d>>
@@ -81,7 +94,7 @@ TOp ==
 
 TInit ==
     /\ l = 1 /\ tr = 0 /\ failed = FALSE
-    /\ d = [perRes |-> TRUE, invalid |-> {}, rejects |-> FALSE, ordered |-> TRUE, probes |-> << >>, mod |-> ""]
+    /\ d = [perRes |-> TRUE, invalid |-> {}, rejects |-> FALSE, ordered |-> TRUE, near |-> << >>, probes |-> << >>, mod |-> ""]
     /\ want = << >> /\ lastOf = << >>
     /\ raw = << >> /\ enforced = << >> /\ reported = << >> /\ ret = [changed |-> FALSE, err |-> FALSE]
     /\ ident = FALSE /\ h = << >>
